@@ -319,8 +319,9 @@ def _sources_equivalent(source1: str, source2: ast.AST) -> bool:
 
 
 def minimize_whitespace_line_differences(source: str, new_source: str) -> Tuple[str, str, str]:
-    old_lines = source.splitlines(keepends=True)
-    new_lines = new_source.splitlines(keepends=True)
+    # Lines as Python counts them: a form feed or a unicode line separator inside a literal ends no line
+    old_lines = list(core.splitlines(source))
+    new_lines = list(core.splitlines(new_source))
 
     differ = difflib.Differ()
     diffs = list(differ.compare(old_lines, new_lines))
